@@ -85,3 +85,74 @@ MUTANTS3 = [
     B("benign-diagnose-len-test", [(TKR, "        if not self._tokens:\n            self.getnext()\n        return self._tokens[-1]",
                                     "        if len(self._tokens) == 0:\n            self.getnext()\n        return self._tokens[-1]")]),
 ]
+
+# ------------------------------------------------------------------ third batch
+MUTANTS3 += [
+    B("benign-parse-string-stream-local", [(SUB, '''        tok_stream = generate_tokens(io.StringIO(source, newline=None).readline)
+        tokenizer = Tokenizer(tok_stream, verbose=verbose)
+        parser = cls(tokenizer, verbose=verbose, py_version=py_version)
+        return parser.parse(mode if mode == "eval" else "file")
+''', '''        stream = io.StringIO(source, newline=None)
+        tok_stream = generate_tokens(stream.readline)
+        tokenizer = Tokenizer(tok_stream, verbose=verbose)
+        parser = cls(tokenizer, verbose=verbose, py_version=py_version)
+        return parser.parse(mode if mode == "eval" else "file")
+''')]),
+    B("benign-macro-arg-text-loop", [(SUB, '''        st = "".join((tok.string if isinstance(tok, TokenInfo) else tok) for tok in a).strip()
+''', '''        parts = [(tok.string if isinstance(tok, TokenInfo) else tok) for tok in a]
+        st = "".join(parts).strip()
+''')]),
+    B("benign-handle-proc-name-local", [(SUB, '''        return xonsh_call(f"__xonsh__.{method}", *args, **locs)
+''', '''        name = f"__xonsh__.{method}"
+        return xonsh_call(name, *args, **locs)
+''')]),
+    B("benign-conversion-guard-reordered", [(SUB, '''        if len(s) > 1 or s not in ("s", "r", "a"):
+''', '''        if s not in ("s", "r", "a") or len(s) > 1:
+''')]),
+    B("benign-ensure-real-tuple-isinstance", [(SUB, '''        if not isinstance(value, float | int):
+''', '''        if not isinstance(value, (float, int)):
+''')]),
+    B("benign-add-literals-xor", [(SUB, '''        if isinstance(left, bytes) != isinstance(right, bytes):
+''', '''        if isinstance(left, bytes) is not isinstance(right, bytes):
+''')]),
+    B("benign-get-lines-enumerate", [(TKR, '''                for line in f:
+                    count += 1
+                    if count in line_numbers:
+''', '''                for line in f:
+                    count = count + 1
+                    if count in line_numbers:
+''')]),
+    B("benign-macro-params-opener-set", [(TKR, '''            if tok.type == Token.OP and tok.string[-1] in "([{":  # push paren level
+''', '''            if tok.type == Token.OP and tok.string[-1] in ("(", "[", "{"):  # push paren level
+''')]),
+    B("benign-cover-guard-flipped", [(TKZ, '''        if state.lnum > self.upto:
+            self.contline += state.line
+            self.upto = state.lnum
+''', '''        if self.upto < state.lnum:
+            self.contline += state.line
+            self.upto = state.lnum
+''')]),
+    B("benign-physical-lines-first-only", [(TKR, '''        if len(lines) != tok.end[0] - tok.start[0] + 1:
+            lines = lines[:1]
+''', '''        if len(lines) != tok.end[0] - tok.start[0] + 1:
+            del lines[1:]
+''')]),
+    B("benign-showpeek-fields-local", [(SUB, '''        tok = self._tokenizer.peek()
+        return f"{tok.start[0]}.{tok.start[1]}: {tok.type}:{tok.string!r}"
+''', '''        tok = self._tokenizer.peek()
+        row, col = tok.start
+        return f"{row}.{col}: {tok.type}:{tok.string!r}"
+''')]),
+    B("benign-end-tokens-newline-pos-local", [(TKZ, '''    if state.last_line and state.last_line[-1] not in "\\r\\n" and not state.last_line.strip().startswith("#"):
+        yield TokenInfo(
+            Token.NEWLINE,
+            "",
+            (state.lnum - 1, len(state.last_line)),
+            (state.lnum - 1, len(state.last_line) + 1),
+            "",
+        )
+''', '''    if state.last_line and state.last_line[-1] not in "\\r\\n" and not state.last_line.strip().startswith("#"):
+        width = len(state.last_line)
+        yield TokenInfo(Token.NEWLINE, "", (state.lnum - 1, width), (state.lnum - 1, width + 1), "")
+''')]),
+]
